@@ -157,13 +157,13 @@ def run_own(ctx, lines):
         if bad and not any(f["case"] == l for f in fails):
             fails.append(dict(kind="counterexample", case=l, impl=o, model=model.get(cid), op="own", size=len(l),
                               theorem="C10-A3: owned arrays are freed exactly once, borrowed arrays never (%s non-zero)" % ",".join(bad)))
-    # does a mismatch reproduce the historical copy assignment (before /repo 9a9c4a3)?
+    # does a mismatch reproduce the historical copy assignment (before /repo b0b02bf)?
     if fails:
         fl = [f["case"] for f in fails][:2000]
         old = ctx["run_driver"](ctx["model"], [l.replace(" own ", " own_old ", 1) for l in fl])
         for f in fails:
             cid = f["case"].split(" ", 1)[0]
-            f["input_class"] = "as-before-9a9c4a3" if (old.get(cid) is not None and old.get(cid) == f.get("impl")) else "own-sequence"
+            f["input_class"] = "as-before-b0b02bf" if (old.get(cid) is not None and old.get(cid) == f.get("impl")) else "own-sequence"
     # the same sequences under ASan + LeakSanitizer (one process per case), no tracking allocator
     sub = lines if len(lines) <= 1500 else lines[:: max(1, len(lines) // (1500 if ctx["tier"] == "quick" else 6000))]
     san = ctx["run_driver"](ctx["cpp"]["own@asan"], sub, env_extra={"ASAN_OPTIONS": "detect_leaks=1:abort_on_error=0", "UBSAN_OPTIONS": "print_stacktrace=1"},
